@@ -88,4 +88,40 @@ def dumbPrint : List PEv → Option Nat → Bytes
     let hideOutput := output.isEmpty || (t == .success && hide)
     header ++ (if hideOutput then [] else output) ++ dumbPrint rest last
 
+/-! ### `Work::create_parent_dirs` -/
+
+def SLASH : UInt8 := 47
+
+/-- Split at `/`. -/
+def splitSlash : Bytes → Bytes → List Bytes
+  | [], cur => [cur]
+  | c :: r, cur => if c == SLASH then cur :: splitSlash r [] else splitSlash r (cur ++ [c])
+
+def joinSlash : List Bytes → Bytes
+  | [] => []
+  | [c] => c
+  | c :: cs => c ++ [SLASH] ++ joinSlash cs
+
+/-- `Path::parent` of a canonical relative path: everything before the last `/`
+    (`Some("")` for a bare file name; `create_dir_all("")` does nothing). -/
+def parentOf (p : Bytes) : Bytes := joinSlash (splitSlash p []).dropLast
+
+/-- The directories `create_parent_dirs` hands to `create_dir_all`, in order: the parent of each
+    output, a parent equal to one already handled being skipped. -/
+def createParentDirs : List Bytes → List Bytes → List Bytes
+  | [], done => done
+  | o :: os, done =>
+    let parent := parentOf o
+    if done.contains parent then createParentDirs os done else createParentDirs os (done ++ [parent])
+
+/-- What `create_dir_all d` makes exist: `d` and every ancestor (`a`, `a/b`, `a/b/c`). -/
+def dirAndAncestors (d : Bytes) : List Bytes :=
+  if d.isEmpty then [] else
+  let comps := splitSlash d []
+  (List.range comps.length).map (fun i => joinSlash (comps.take (i + 1)))
+
+/-- Directories that exist when the command starts (in a tree that had none). -/
+def dirsBeforeCommand (outs : List Bytes) : List Bytes :=
+  (createParentDirs outs []).flatMap dirAndAncestors
+
 end N2V.Task
